@@ -402,6 +402,9 @@ func c15RunOnce(in c15In) ([]string, []c15Obs, uint64, bool, error) {
 			obs = append(obs, o)
 		case "read":
 			buf := make([]byte, op.K)
+			for i := range buf {
+				buf[i] = byte(0x5A + i) // dirty buffer: Read must overwrite it
+			}
 			prg.Read(buf)
 			terms = append(terms, fmt.Sprintf("ORead %d %s", op.K, cqs(hx(buf))))
 			obs = append(obs, c15Obs{Op: "read", Val: hx(buf)})
